@@ -564,6 +564,7 @@ func Run(c *run.Ctx) {
 		return
 	}
 	defer k.close()
+	scratchDir = c.WorkDir
 
 	if c.Replay != nil {
 		var cs Case
